@@ -463,6 +463,10 @@ type e2Profile struct {
 	// an idle JobConfig, cron JobConfigs never Forbid and never fed by users, at
 	// most one new Job per JobConfig and phase, phases separated by >= 1 s.
 	confluent bool
+	// retryHeavy: every JobConfig is parallel with several attempts and a retry
+	// delay, and containers mostly fail, so that several indexes are in back-off at
+	// the same time with different due times (C08 backoff sub-check).
+	retryHeavy bool
 }
 
 func genE2Setup(t *rapid.T, p e2Profile) *E2Trace {
@@ -502,6 +506,21 @@ func genE2Setup(t *rapid.T, p e2Profile) *E2Trace {
 		j.RetryDelay = optInt64(t, "retryDelay", 0, 5, 60, 120)
 		j.PendingTimeout = optInt64(t, "pendingTimeout", 0, 20, 600)
 		j.ForbidForce = rapid.IntRange(0, 5).Draw(t, "forbidForce") == 0
+		if p.retryHeavy {
+			j.ParKind, j.ParN = rapid.SampledFrom([]string{"count", "keys"}).Draw(t, "rhKind"), rapid.IntRange(2, 3).Draw(t, "rhN")
+			j.Strategy = rapid.SampledFrom([]string{"", "AllSuccessful", "AnySuccessful"}).Draw(t, "rhStrategy")
+			j.MaxAttempts = optInt64(t, "rhAttempts", 2, 3, 5)
+			if j.MaxAttempts == nil {
+				three := int64(3)
+				j.MaxAttempts = &three
+			}
+			j.RetryDelay = optInt64(t, "rhDelay", 5, 60, 120)
+			if j.RetryDelay == nil {
+				d := int64(60)
+				j.RetryDelay = &d
+			}
+			j.PendingTimeout = nil
+		}
 		j.TTL = optInt64(t, "ttl", 0, 30, 3600)
 		j.TemplateMeta = rapid.IntRange(0, 3).Draw(t, "templateMeta") == 0
 		j.RestartOnFailure = rapid.IntRange(0, 3).Draw(t, "restartOnFailure") == 0
@@ -634,6 +653,9 @@ func genOpsOn(t *rapid.T, r *e2run, tr *E2Trace, p e2Profile, _ int) {
 		kub("k-schedule", 8, schedulable, func() string { return "schedule" })
 		kub("k-run", 8, runnable, func() string { return "run" })
 		kub("k-finish", 8, running, func() string {
+			if p.retryHeavy {
+				return rapid.SampledFrom([]string{"fail", "fail", "fail", "oom", "succeed"}).Draw(t, "outcome")
+			}
 			return rapid.SampledFrom([]string{"succeed", "succeed", "fail", "fail", "oom"}).Draw(t, "outcome")
 		})
 		kub("k-flap", 1, running, func() string { return "flap" })
@@ -650,6 +672,9 @@ func genOpsOn(t *rapid.T, r *e2run, tr *E2Trace, p e2Profile, _ int) {
 			add("deletePod", 1, func() E2Op { return E2Op{K: "deletePod", A: keyOf(rapid.SampledFrom(alivePods).Draw(t, "delpod"))} })
 		}
 		add("advance", 6, func() E2Op {
+			if p.retryHeavy { // steps around the retry delays, so that one index is due and another not yet
+				return E2Op{K: "advance", D: int64(rapid.SampledFrom([]int{1000, 2000, 3000, 5000, 20000, 30000, 31000, 59000, 60000, 61000, 90000, 120000}).Draw(t, "adv"))}
+			}
 			return E2Op{K: "advance", D: int64(rapid.SampledFrom([]int{1, 500, 1000, 1000, 2000, 5000, 20000, 30000, 60000, 61000, 120000, 600000, 3600000}).Draw(t, "adv"))}
 		})
 		if p.cron && !(p.confluent && ticked) {
